@@ -55,6 +55,26 @@ def gen_program(rng, N, rounds, racer, filler):
     return objs, threads
 
 
+def gen_big_case(rng, N, rounds=2, workers=None, pswitch=85):
+    """a barrier with more participants than any plausible internal batch size (a release loop that works in
+    chunks, a fixed-size array of sleepers, ...).  No counters (lib_interp has 128 objects): the trace-order
+    oracle is exact on its own.  Threads do nothing between rounds, so every woken thread is a racer; with
+    pswitch high the popper is descheduled between pushes and stolen threads re-arrive while it is still busy.
+    `snapmax 6`: only the first 6 entries of the sleep stack are listed per POINT (the model compares that
+    prefix); creators are spread so that no thread has more than 4096 ops."""
+    workers = workers or rng.rng(2, 4)
+    per = 1200
+    creators = {}
+    for q in range(1, N):
+        creators.setdefault((q - 1) // per if (q - 1) // per < q else 0, []).append(q)
+    threads = {}
+    for p in range(N):
+        kids = creators.get(p, [])
+        threads[p] = ["create %d" % q for q in kids] + ["bwait b"] * rounds + ["join %d" % q for q in kids]
+    return trace.case_text(workers, rng.rng(1, 1 << 30), ["b barrier %d" % N], threads, pswitch=pswitch,
+                           extra={"snapmax": 6}, maxsteps=20000000)
+
+
 def gen_case(rng, N=None, rounds=None, workers=None, pswitch=None, racer="maybe"):
     N = N or rng.choice([1, 2, 3, 5])
     rounds = rounds or rng.rng(1, 6)
@@ -122,8 +142,9 @@ def c06_block(name, N, parts, events):
             st, n = m1.group(1), m2.group(1)
             stk = [tg(x) or "?" for x in m3.group(1).split(",") if x]
             v = tg(val) if tg(val) is not None else ("-" if val in ("-", "big", "t?") else val)
-            lines.append("tick %s %s %s %s B %s %s %d %s" % (idx.get(e.actor, "?"), e.ctx, pid, v, st, n,
-                                                            len(stk), " ".join(stk)))
+            kind = "Bp" if " more=1" in e.snap else "B"      # Bp: the snapshot lists only a prefix (snapmax)
+            lines.append("tick %s %s %s %s %s %s %s %d %s" % (idx.get(e.actor, "?"), e.ctx, pid, v, kind, st, n,
+                                                             len(stk), " ".join(stk)))
             src.append(e)
     lines.append("end")
     src.append(None)
@@ -137,9 +158,15 @@ def c06_block(name, N, parts, events):
 def oracle(case, r):
     """None if the property holds on this run, else a message.  Uses only the interpreter's C/R lines
     (call / return order, return values, counter readings) and the verdict - not the model."""
+    incomplete = None
     if r["verdict"] is None or not r["verdict"].startswith("DONE") or r["rc"] != 0:
-        return "run did not complete: verdict %s rc %s %s" % (r["verdict"], r["rc"], r["out"][-200:].strip())
+        v = r["verdict"] or "none"
+        v = re.sub(r"blocked=\[([^\]]{60})[^\]]*\]", r"blocked=[\1...]", v)
+        incomplete = "run did not complete: verdict %s rc %s %s" % (v, r["rc"], r["out"][-200:].strip())
+    _, threads, _, _ = trace.parse_case(case)
     for name, N, parts in barriers_of(case):
+        if len(parts) != N:
+            continue                          # not a program of the class the property quantifies over
         calls = {p: [] for p in parts}      # trace positions of the k-th call / return
         rets = {p: [] for p in parts}
         vals = {p: [] for p in parts}
@@ -148,38 +175,46 @@ def oracle(case, r):
         for pos, e in enumerate(r["events"]):
             if e.kind == "C":
                 pend[e.actor] = e.words
-                if e.words[0] == "bwait" and e.words[1] == name:
+                if e.words[0] == "bwait" and e.words[1] == name and e.actor in calls:
                     calls[e.actor].append(pos)
             elif e.kind == "R" and e.actor in pend:
                 w = pend.pop(e.actor)
-                if w[0] == "bwait" and w[1] == name:
+                if w[0] == "bwait" and w[1] == name and e.actor in rets:
                     rets[e.actor].append(pos)
                     vals[e.actor].append(int(e.words[1]))
                 elif w[0] == "get" and re.fullmatch(r"c\d+", w[1]) and e.actor in rets:
                     gets.append((e.actor, len(rets[e.actor]), int(w[1][1:]), int(e.words[1])))
-        _, threads, _, _ = trace.parse_case(case)
         want = {p: sum(1 for o in threads[p] if o[0] == "bwait" and o[1] == name) for p in parts}
-        if len(parts) != N:
-            continue                          # not a program of the class the property quantifies over
+        rounds = min(want.values()) if want else 0
+        # (1) nobody returns from its k-th wait before all N have entered their k-th wait - judged on every
+        #     return that happened, also in runs that did not complete
+        INF = len(r["events"]) + 1
+        for k in range(rounds):
+            last_arrival = max(calls[p][k] if k < len(calls[p]) else INF for p in parts)
+            for p in parts:
+                if k < len(rets[p]) and rets[p][k] < last_arrival:
+                    late = [q for q in parts if k >= len(calls[q]) or calls[q][k] > rets[p][k]]
+                    arrived = N - len(late)
+                    return ("t%d returned from its wait #%d on %s with only %d/%d participants arrived (t%s had not "
+                            "entered their wait #%d)%s" % (p, k + 1, name, arrived, N, ",t".join(map(str, late[:6])),
+                                                         k + 1, "; " + incomplete if incomplete else ""))
+        if incomplete:
+            return incomplete
         for p in parts:
             if len(rets[p]) != want[p]:
                 return "t%d completed %d of its %d waits on %s" % (p, len(rets[p]), want[p], name)
-        rounds = min(want.values()) if want else 0
+        # (2) exactly one serial thread per round
         for k in range(rounds):
-            last_arrival = max(calls[p][k] for p in parts)
-            for p in parts:
-                if rets[p][k] < last_arrival:
-                    late = [q for q in parts if calls[q][k] > rets[p][k]]
-                    return ("t%d returned from its wait #%d on %s before t%s had entered theirs"
-                            % (p, k + 1, name, ",t".join(map(str, late))))
             vs = sorted(vals[p][k] for p in parts)
             if vs != [0] * (N - 1) + [1]:
-                return "round %d of %s: return values %s (want exactly one 1 and %d zeros)" % (
-                    k + 1, name, [vals[p][k] for p in parts], N - 1)
+                ones = [p for p in parts if vals[p][k] == 1]
+                return "round %d of %s: return values are not one 1 and %d zeros: threads returning 1: %s, other values: %s" % (
+                    k + 1, name, N - 1, ones[:8], sorted(set(v for v in vs if v not in (0, 1)))[:5])
+        # (3) arrival counters read right after the k-th return
         for (p, k, q, v) in gets:
             if q in calls and not (k <= v <= k + 1):
                 return "t%d read arrival counter c%d = %d after its wait #%d (must be %d or %d)" % (p, q, v, k, k, k + 1)
-    return None
+    return incomplete
 
 
 # --------------------------------------------------------------------------------------------------
@@ -303,6 +338,18 @@ def gen_cases(ctx, n_grid, n_racer):
     return cases
 
 
+def gen_big_cases(ctx):
+    """N beyond 1024 (+1): 'N from 1 upward' needs at least one N past any internal batch size"""
+    r = ctx.rng
+    if not ctx.thorough:
+        return [gen_big_case(r, N) for N in (1025, 1026, 1100)]
+    res = []
+    for N in (200, 513, 1025, 1026, 1027, 1100, 1500, 2049):
+        for _ in range(3):
+            res.append(gen_big_case(r, N, rounds=r.rng(2, 3), pswitch=r.choice([60, 85, 85])))
+    return res
+
+
 def variants(ctx, case, n):
     """the same program under other controller seeds / preemption rates / worker counts"""
     lines = case.split("\n")
@@ -337,11 +384,11 @@ def run(ctx):
     shutil.rmtree(os.path.join(ctx.dir, "runs"), ignore_errors=True)     # traces of earlier runs
     corpus = load_corpus()
     n_grid, n_racer = (400, 200) if not ctx.thorough else (7000, 3000)
-    cases = corpus + gen_cases(ctx, n_grid, n_racer)
+    cases = corpus + gen_big_cases(ctx) + gen_cases(ctx, n_grid, n_racer)
     results = []
     CH = 400
     for i in range(0, len(cases), CH):
-        results += run_cases(ctx, exe, drv, cases[i:i + CH], tag="b%02d_" % (i // CH))
+        results += run_cases(ctx, exe, drv, cases[i:i + CH], tag="b%02d_" % (i // CH), timeout=300)
     hist, dist, verdicts = {}, {}, {}
     oracle_fail, model_fail = [], []
     events_total = 0
@@ -367,7 +414,8 @@ def run(ctx):
         seeds = [r["case"] for r in model_fail[:6]] or cases[:6]
         extra = []
         for c in seeds:
-            extra += variants(ctx, c, 120 if not ctx.thorough else 600)
+            big = "snapmax" in c
+            extra += variants(ctx, c, (12 if big else 120) if not ctx.thorough else (40 if big else 600))
         sres = run_cases(ctx, exe, drv, extra, tag="s")
         searched = len(sres)
         for r in sres:
